@@ -1011,6 +1011,32 @@ func (e *Env) call(x *ECall) *SVal {
 			v := e.eval(x.Args[0])
 			t := e.typeArg(x.Args[1])
 			return mkBool(sEq(v.Sub[0].Term, bvLit(big.NewInt(int64(g.W.typeTag(t))), 32)))
+		case "atomicval": // atomicval(x): current value of a sync/atomic typed variable x
+			p := e.evalLoc(x.Args[0])
+			pt := p.T.Underlying().(*types.Pointer).Elem()
+			name := ""
+			if n, ok := types.Unalias(pt).(*types.Named); ok {
+				name = n.Obj().Name()
+			}
+			var vt types.Type
+			switch name {
+			case "Uint64":
+				vt = tUint64
+			case "Int64":
+				vt = tInt64
+			case "Uint32":
+				vt = tUint32
+			case "Int32":
+				vt = types.Typ[types.Int32]
+			case "Uintptr":
+				vt = tUPtr
+			case "Bool":
+				vt = tBool
+			default:
+				e.fail("atomicval: %s is not a supported sync/atomic type", pt)
+			}
+			h := g.heapGet(e.cur, "A|"+name, arrSort(SBV64, g.W.scalarSort(vt)))
+			return scalar(vt, kindOf(vt), sSel(h, p.Term))
 		case "addr": // addr(x): the address of location x
 			return e.evalLoc(x.Args[0])
 		case "samearray":
